@@ -5,3 +5,4 @@ import LouProofs.Lemmas.Hyph
 import LouProofs.Lemmas.HyphWalk
 import LouProofs.Lemmas.HyphCompile
 import LouProofs.C17
+import LouProofs.Lemmas.HyphWrap
